@@ -47,7 +47,8 @@ Definition merge (r1 r2 : option req) : result req :=
 (* SpecifierSet.contains of the requirement's specifier, explicit prerelease flag *)
 Definition accepts (r : req) (v : version) (flag : bool) : bool := spec_contains (rspec r) v flag.
 
-(* reduce_requirements: dict keyed by req.project_name (= safe_name name), insertion order *)
+(* reduce_requirements: dict keyed by normalize_project_name(req.project_name) (project_name = safe_name name;
+   after the /repo fix that reduces requirements by normalized project name), insertion order *)
 Fixpoint upsert (k : string) (r : req) (acc : list (string * req)) : result (list (string * req)) :=
   match acc with
   | [] => Ok [(k, r)]
@@ -67,7 +68,7 @@ Fixpoint reduce_acc (rs : list req) (acc : list (string * req)) : result (list (
   match rs with
   | [] => Ok acc
   | r :: rs' =>
-      match upsert (safe_name (rname r)) r acc with
+      match upsert (norm (safe_name (rname r))) r acc with
       | Ok acc' => reduce_acc rs' acc'
       | Err e => Err e
       end
